@@ -903,39 +903,37 @@ Proof. vm_compute. reflexivity. Qed.
 Lemma structure_holds : structure_ok = true.
 Proof. vm_compute. reflexivity. Qed.
 
-Lemma fault_classes_fatal_or_gap c : In c fault_error_classes -> is_fatal c = true \/ In c fault_gap.
-Proof.
-  intros H. destruct (is_fatal c) eqn:E; [left; reflexivity|right].
-  unfold fault_gap. apply filter_In. split; [exact H|]. rewrite E. reflexivity.
-Qed.
+(* every error class a failing plugin was observed to produce at the relay functions is in
+   isFatalError's table (evaluated on the table regenerated from plugin.go) *)
+Lemma fault_gap_empty : fault_gap = [].
+Proof. vm_compute. reflexivity. Qed.
 
-Lemma fault_gap_empty_all_fatal : fault_gap = [] -> forall c, In c fault_error_classes -> is_fatal c = true.
+Lemma fault_classes_all_fatal c : In c fault_error_classes -> is_fatal c = true.
 Proof.
-  intros Hg c Hc. destruct (fault_classes_fatal_or_gap c Hc) as [H|H]; [exact H|]. rewrite Hg in H. contradiction.
-Qed.
-
-Lemma fault_gap_refutes : fault_gap <> [] ->
-  exists c, In c fault_error_classes /\ is_fatal c = false /\
-            forall (Rp : Type) msg, classify (Rp:=Rp) (Failed c msg) = Veto msg.
-Proof.
-  intros Hg. destruct fault_gap as [|c r] eqn:E; [contradiction|].
-  assert (Hc : In c fault_gap) by (rewrite E; left; reflexivity).
-  unfold fault_gap in Hc. apply filter_In in Hc. destruct Hc as [Hc Hf]. apply negb_true_iff in Hf.
-  exists c. split; [exact Hc|]. split; [exact Hf|]. intros Rp msg. unfold classify. rewrite Hf. reflexivity.
+  intros H. destruct (is_fatal c) eqn:E; [reflexivity|exfalso].
+  assert (G : In c fault_gap) by (unfold fault_gap; apply filter_In; split; [exact H|rewrite E; reflexivity]).
+  rewrite fault_gap_empty in G. exact G.
 Qed.
 
 Lemma fatal_class_is_dropped (Rp : Type) c msg : is_fatal c = true -> classify (Rp:=Rp) (Failed c msg) = Fatal.
 Proof. intros H. unfold classify. rewrite H. reflexivity. Qed.
 
-(* which world this tree is in (evaluated on the regenerated table) *)
-Lemma fault_gap_on_this_tree :
-  fault_gap = ["io.ErrUnexpectedEOF"; "codes.DeadlineExceeded"] \/ fault_gap = ["io.ErrUnexpectedEOF"] \/
-  fault_gap = ["codes.DeadlineExceeded"] \/ fault_gap = [].
+Lemma nonfatal_class_vetoes (Rp : Type) c msg : is_fatal c = false -> classify (Rp:=Rp) (Failed c msg) = Veto msg.
+Proof. intros H. unfold classify. rewrite H. reflexivity. Qed.
+
+Lemma deadline_is_fatal : is_fatal "context.DeadlineExceeded" = true.
+Proof. vm_compute. reflexivity. Qed.
+
+(* a call that lasts T or longer, or that fails with one of the fault classes, is Fatal *)
+Lemma failing_call_is_fatal (Rp : Type) (T : N) (c : call Rp) :
+  (T <= c_dur c)%N \/ (exists cls msg, c_res c = Failed cls msg /\ In cls fault_error_classes) ->
+  classify (effective T c) = Fatal.
 Proof.
-  first [ left; vm_compute; reflexivity
-        | right; left; vm_compute; reflexivity
-        | right; right; left; vm_compute; reflexivity
-        | right; right; right; vm_compute; reflexivity ].
+  intros H. unfold effective. destruct (N.leb T (c_dur c)) eqn:E.
+  - apply fatal_class_is_dropped. exact deadline_is_fatal.
+  - destruct H as [H|[cls [msg [Hr Hc]]]].
+    + apply N.leb_le in H. congruence.
+    + rewrite Hr. apply fatal_class_is_dropped. apply fault_classes_all_fatal. exact Hc.
 Qed.
 
 (* ================================================================== *)
@@ -1173,6 +1171,18 @@ Proof.
   intros HI. cbn zeta. unfold Dispatch.run_request. cbn [snd o_result o_invoked].
   destruct (relay_without_fatal _ _ _ ev_of apply T rq h I ps (init rq) HI) as [E1 E2].
   rewrite E1, E2. split; reflexivity.
+Qed.
+
+(* C07: plugins that hang past the time-out or whose calls fail with a fault class are absent *)
+Lemma failing_is_absent T rq h (I : plugin -> bool) ps :
+  (forall p, In p ps -> I p = true ->
+     (T <= c_dur (h p))%N \/ (exists cls msg, c_res (h p) = Failed cls msg /\ In cls fault_error_classes)) ->
+  let o := snd (run_request T rq h ps) in
+  let o' := snd (run_request T rq h (filter (fun p => negb (I p)) ps)) in
+  o_result o = o_result o' /\ filter (fun p => negb (I p)) (o_invoked o) = o_invoked o'.
+Proof.
+  intros HI. apply fatal_is_absent. intros p Hp Ip _. unfold oc, DispatchProofs.oc.
+  apply failing_call_is_fatal. apply HI; assumption.
 Qed.
 
 (* C07: … they are pruned when the request returns and never called in any later request *)
